@@ -126,7 +126,7 @@ def check_case(case):
             except Exception:
                 counters["stage1-inconclusive"] = counters.get("stage1-inconclusive", 0) + 1
                 continue
-            if not oracle.close_real(sv, ref):
+            if not oracle.close_real(sv, ref, K=64, float_floor=256):
                 raise Violation(
                     "C01:symbolic-mismatch",
                     {"text": text, "name": a["name"], "point": pt, "expected": oracle.fmt(ref), "symbolic": str(sv), "sympy": str(ode[a["name"]].expr)},
